@@ -222,8 +222,9 @@ def settings_args(route, settings):
 
 
 class Cell:
-    def __init__(self, fault, route, expect, kind, grammar=None, settings=None, setup=None, faults=None, dest_setup=None, fmt=False, rustfmt="present"):
+    def __init__(self, fault, route, expect, kind, grammar=None, settings=None, setup=None, faults=None, dest_setup=None, fmt=False, rustfmt="present", timeout=None):
         self.fault, self.route, self.expect, self.kind = fault, route, expect, kind
+        self.timeout = timeout
         self.grammar = grammar  # bytes or None (setup decides)
         self.settings = settings or {}
         self.setup = setup  # name of a file-system preparation
@@ -240,7 +241,7 @@ class Cell:
                 "grammar": self.grammar.decode("utf-8", "backslashreplace") if self.grammar is not None else None,
                 "grammar_hex": self.grammar.hex() if self.grammar is not None else None,
                 "settings": {k: (v.hex() if isinstance(v, bytes) else v) for k, v in self.settings.items()}, "setup": self.setup, "faults": self.faults, "dest_setup": self.dest_setup,
-                "format": self.fmt, "rustfmt": self.rustfmt}
+                "format": self.fmt, "rustfmt": self.rustfmt, "timeout": self.timeout}
 
     @staticmethod
     def from_json(j):
@@ -248,7 +249,7 @@ class Cell:
         if j.get("settings") and "base" in j["settings"]:
             j["settings"]["base"] = bytes.fromhex(j["settings"]["base"])
         return Cell(j["fault"], j["route"], j["expect"], j["kind"], g, j.get("settings"), j.get("setup"), j.get("faults"),
-                    j.get("dest_setup"), j.get("format", False), j.get("rustfmt", "present"))
+                    j.get("dest_setup"), j.get("format", False), j.get("rustfmt", "present"), j.get("timeout"))
 
 
 def execute(cell, d, env, entropy):
@@ -322,7 +323,7 @@ def execute(cell, d, env, entropy):
             raise HarnessError("base grammar of an after-success cell did not compile: %r" % c0.out[:200])
         with open(gpath, "wb") as f:
             f.write(cell.grammar)
-    c = run_child(argv, d, e, entropy=entropy, faults=faults, shim_log=shim_log)
+    c = run_child(argv, d, e, entropy=entropy, faults=faults, shim_log=shim_log, **({"timeout": cell.timeout} if cell.timeout else {}))
     if cell.route.startswith("compile") and cell.kind in ("restriction", "syntax", "rationale", "io_read") and not c.crashed():
         # the same run once more in the same directory: whatever the first run left behind must not turn a failure into a success
         c2 = run_child(argv, d, e, entropy=entropy, faults=faults, shim_log=shim_log)
@@ -523,6 +524,21 @@ def build_cells(seed, tier, pool):
                 cells.append(Cell(fid, r, "fail", "damage", g, {"base": tricky}, dest_setup="after_success"))
     for r in ROUTES:
         cells.append(Cell("control_tricky_lex", r, "ok", "control", tricky))
+    # depth: nested choice groups (work of the generator per level) and nested parentheses (recursion of the grammar parser)
+    def nested_groups(depth):
+        e = "'x'"
+        for _ in range(depth):
+            e = "( %s | 'a' )" % e
+        return ("Zz1 = %s;\n" % e).encode()
+
+    def nested_parens(depth):
+        return ("Zz1 = %s'x'%s;\n" % ("(" * depth, ")" * depth)).encode()
+
+    for r in ROUTES + CLI_PARSE_ONLY_ROUTES:
+        cells.append(Cell("nested_choice_groups_10", r, "ok", "control", nested_groups(10)))
+        cells.append(Cell("nested_parentheses_100", r, "ok", "control", nested_parens(100)))
+        cells.append(Cell("nested_choice_groups_30", r, "nocrash", "rationale", nested_groups(30), timeout=8))
+        cells.append(Cell("nested_parentheses_2000", r, "nocrash", "rationale", nested_parens(2000)))
     # syntax damage: any answer but a crash; all routes must agree on accept/reject
     ndam = 40 if tier == "quick" else 1500
     srcs = [g for n, g in pool]
